@@ -197,12 +197,15 @@ func handcrafted() []hcase {
 		add(V, fmt.Sprintf("scalar type %d, zeros", tid), cat([]byte{byte(tid)}, rep([]byte{0}, 24)))
 		add(V, fmt.Sprintf("array of 2 x type %d, zeros", tid), cat([]byte{byte(0x80 | tid)}, le32(2), rep([]byte{0}, 48)))
 	}
+	add(V, "6000 dimensions of 1", cat([]byte{0xc6}, le32(1), le32(9), le32(6000), rep(le32(1), 6000)))
 	add(V, "array length 65536", cat([]byte{0x86}, le32(65536)))
 	for _, k := range []int{1, 10, 100, 1000} {
 		add(V, fmt.Sprintf("Variant chain depth %d", k), cat(rep([]byte{0x18}, k), []byte{1, 1}))
 		add(DI, fmt.Sprintf("DiagnosticInfo chain depth %d", k), cat(rep([]byte{0x40}, k), []byte{0}))
 		add(DV, fmt.Sprintf("DataValue/Variant chain depth %d", k), cat(rep([]byte{0x01, 0x17}, k), []byte{0}))
-		add(V, fmt.Sprintf("nested arrays claiming 65535 elements x %d", k), rep(cat([]byte{0x98}, le32(65535)), k))
+		if k <= 100 {
+			add(V, fmt.Sprintf("nested arrays claiming 65535 elements x %d", k), rep(cat([]byte{0x98}, le32(65535)), k))
+		}
 		add(V, fmt.Sprintf("%d dimensions of 1", k), cat([]byte{0xc6}, le32(1), le32(9), le32(uint32(k)), rep(le32(1), k)))
 	}
 	add(EO, "row4 unknown type with body", []byte{1, 0, 0x39, 0x30, 1, 3, 0, 0, 0, 9, 9, 9})
@@ -426,6 +429,7 @@ func main() {
 	mem := flag.Int("memkb", 2<<20, "address space limit of the child in KiB")
 	tmo := flag.Duration("timeout", 10*time.Second, "per-case timeout of the child")
 	deep := flag.Int("deep", 0, "hostile: add Variant/DiagnosticInfo chains of this depth (not sent to the model)")
+	deepAll := flag.Bool("deep-all", false, "hostile: with -deep, also the DiagnosticInfo chain")
 	emptyEO := flag.Bool("empty-eo", false, "values: also use registered empty structs as extension object bodies")
 	casesFile := flag.String("cases", "", "hostile: read cases (JSON lines ty/hex/src) from this file instead of generating")
 	flag.Parse()
@@ -454,7 +458,9 @@ func main() {
 		}
 		if *deep > 0 {
 			cs = append(cs, hcase{I: len(cs), Ty: "(TCustom CVariant)", Src: fmt.Sprintf("deep Variant chain %d", *deep), Hex: hex.EncodeToString(cat(rep([]byte{0x18}, *deep), []byte{1, 1}))})
-			cs = append(cs, hcase{I: len(cs), Ty: "(TCustom CDiagInfo)", Src: fmt.Sprintf("deep DiagnosticInfo chain %d", *deep), Hex: hex.EncodeToString(cat(rep([]byte{0x40}, *deep), []byte{0}))})
+			if *deepAll {
+				cs = append(cs, hcase{I: len(cs), Ty: "(TCustom CDiagInfo)", Src: fmt.Sprintf("deep DiagnosticInfo chain %d", *deep), Hex: hex.EncodeToString(cat(rep([]byte{0x40}, *deep), []byte{0}))})
+			}
 		}
 		runChildren(cs, *mem, *tmo)
 	case "child":
